@@ -376,6 +376,12 @@ class _V:
     def __init__(self, tag, a=None, b=None):
         self.tag, self.a, self.b = tag, a, b
 
+    def __eq__(self, other) -> bool:  # structural, like xdsl's affine expressions
+        return isinstance(other, _V) and (self.tag, self.a, self.b) == (other.tag, other.a, other.b)
+
+    def __hash__(self) -> int:
+        return hash((self.tag, self.a, self.b))
+
     def num(self) -> int:
         if self.tag in ("const", "leaf"):
             return self.a
@@ -514,6 +520,17 @@ def _samples(kind: str):
     for l in atoms_ + small + deep:
         for r in atoms_ + small[:8]:
             yield _V(kind, l, r)
+    # an index split into quotient and remainder and put together again, with matching and with non-matching multipliers / divisors / operands:
+    # rules that recombine (a floordiv c) * k and a mod c' must be exact about all three
+    for a in leaves + [_V("leaf", 7), _V("leaf", 13)]:
+        for c in (3, 4):
+            for k in (3, 4, 16):
+                for c2 in (3, 4):
+                    for b in (a, leaves[1]):
+                        l = _V("Mul", _V("FloorDiv", a, _V("const", c)), _V("const", k))
+                        r = _V("Mod", b, _V("const", c2))
+                        yield _V(kind, l, r)
+                        yield _V(kind, r, l)
 
 
 def rewrite_identities(repo: Repo, chk: Check) -> None:
